@@ -21,7 +21,7 @@ C11_JOBS = int(os.environ.get('VERIF_C11_JOBS', os.environ.get('VERIF_JOBS', '10
 
 RULE = ('programs = view expression trees of depth 1..2 (quick) / 1..3 (thorough) over leaves of every static-knowledge kind '
         '(constant shape cs/fx, clipped shape cl/cld/cla, fixed dim fd/fdf/fdh, bounded dim bd, dynamic dy): depth 1 = every operation '
-        'variant (compile-time / clipped / fixed-length run-time / dynamic run-time arguments) x every leaf kind, depth 2..3 = fixed-seed sample over the 23 view functions with a Lean transfer function; '
+        'variant (compile-time / clipped / fixed-length run-time / dynamic run-time arguments) x every leaf kind, depth 2..3 = fixed-seed sample over the 23 view functions of the first two groups; '
         'instances = every run-time shape admitted by the leaf types when that set is small (all shapes under a clipped bound, all factorisations '
         'of a fixed buffer), VERIF_SEED-sampled shapes for fixed-dim / bounded-dim / dynamic leaves, run-time arguments derived from the instance; '
         'only instances NumPy accepts. non-trivial = the run-time shape of the instance differs from the nominal shape of the program or the program has depth >= 2')
@@ -34,6 +34,9 @@ ANCHORS = {
     'NmVerif.Static.transfer* (StaticMore.lean)': 'resolve_optype of index::shape_repeat / shape_pad / shape_roll / shape_slice / shape_dynamic_slice / '
                                 'moveaxis_to_transpose / shape_take / shape_atleast_nd / shape_matmul / broadcast_size, accumulate_t shape_/size_, '
                                 'take_t and matmul_t fixed_size / bounded_size, decorator default over a tuple of operands (where)',
+    'NmVerif.Static.transfer* (StaticGen.lean)': 'view::eye / view::tri (dst_shape construction), resolve_optype of index::shape_tril / shape_pool2d / shape_resize / '
+                                'shape_sliding_window / shape_compress / shape_outer / size_outer, pool2d_t and compress_t fixed_size / bounded_size, '
+                                'outer_t bounded_size + decorator default fixed_size from the type of size()',
     'NmVerif.Static.resolveEval': 'resolve_optype<eval_type_resolver_t<default_type_resolver_t<Layout>>, view_t, none_t> (eval.hpp:706-879): candidate '
                                 'shape / data buffers and the priority chain; compared as rk / rfz / rbz of the result type on every modelled program',
     'eval result': 'evaluator_t::operator() on the container the resolver chose: result shape and every element compared with the view',
@@ -42,17 +45,17 @@ ASSUMPTIONS = ['which static kind a composed view type gets is decided by C++ me
                'tied to them by comparing the predicted with the printed static knowledge for every generated program of the modelled operations',
                'instances are restricted to positive extents and to arguments NumPy accepts (invalid arguments are C15)',
                'kind combinations the unchanged library cannot compile are excluded (harness/c11_uncompilable.txt)']
-PARTIAL = ['no Lean transfer function (static knowledge and eval result checked against run-time objects and NumPy for every leaf kind, depth 1): '
-           'eye, tri, tril/triu, max_pool2d/avg_pool2d, resize, sliding_window, compress, outer',
+PARTIAL = ['sliding_window: (integer window, one axis) and (window per axis, axis None) are modelled; a list of axes is not (no Lean transfer, not generated)',
            'where: fixed / bounded size of the view are those of ONE broadcast operand since fix commit 9f8dcf6 (before it the decorator default tripled them: former known finding C11.where-tripled-fixed-size)',
            'the eval resolver model covers the default resolver with context None and no caller-supplied output (eval.hpp:706-879); the older '
            'resolver used by a bare array::eval(view) (eval.hpp:881-) is not modelled']
 MANIFEST = dict(
     text=('Proof: the compile-time knowledge nmtools attaches to an array / view type is modelled as an abstract value (shape-type kind: '
           'constant / clipped / fixed dim / bounded dim / dynamic; size: known / at most / unknown) with concretisation gamma; Lean theorems show that the '
-          'five traits are true of every instance (traits_sound), that the transfer function of each of 23 view functions (transpose, reshape, flatten, '
+          'five traits are true of every instance (traits_sound), that the transfer function of each of 33 view functions (transpose, reshape, flatten, '
           'broadcast_to, tile, expand_dims, squeeze, reductions, unary and binary ufuncs, concatenate; repeat, pad, cumsum/accumulate, roll, flip, slice, '
-          'moveaxis, take, atleast_nd, ufunc with a number, where, matmul) is sound for ALL shapes, ranks and arguments, that soundness composes over '
+          'moveaxis, take, atleast_nd, ufunc with a number, where, matmul; eye, tri, tril, triu, max_pool2d, avg_pool2d, resize, sliding_window, compress, '
+          'outer) is sound for ALL shapes, ranks and arguments, that soundness composes over '
           'arbitrary view expression trees (static_sound), that a buffer of bounded_size elements holds every result (result_buffer_fits) and that the '
           'container the default eval resolver chooses from the five traits can be given the run-time shape and holds every element of every instance '
           '(eval_result_buffer_fits, composed_eval_result_fits). The transfer functions and the resolver model are tied to the real metafunctions by '
